@@ -28,7 +28,11 @@ func verifAt(src []byte, pos Pos, text string, what string) {
 	off := int(pos.Offset())
 	verifAssert(off+len(text) <= len(src), what+": position beyond the input")
 	if off+len(text) <= len(src) {
-		verifAssert(string(src[off:off+len(text)]) == text, what+": position does not point at its text")
+		// the token may be interleaved with bytes the lexer ignores (a NUL
+		// inside "<&" for instance): compare what remains of the source
+		// from the position on
+		rest := verifUnignored(src[off:])
+		verifAssert(len(rest) >= len(text) && string(rest[:len(text)]) == text && (len(text) == 0 || src[off] == text[0]), what+": position does not point at its text")
 	}
 }
 
@@ -67,6 +71,30 @@ func Verif_c09_positions() {
 		return
 	}
 	if verifKnown("C01-heredoc-continuation-before-delimiter", verifHdocCont(f)) {
+		return
+	}
+	if verifKnown("C09-backslash-crlf-column", bytes.Contains(src, []byte("\\\r\n"))) {
+		return
+	}
+	// a one-character special or positional parameter directly followed by a line continuation
+	specCont := false
+	for i := 0; i+3 < len(src); i++ {
+		if c := src[i+1]; src[i] == '$' && src[i+2] == '\\' && src[i+3] == '\n' &&
+			!(c == '_' || c >= 'a' && c <= 'z' || c >= 'A' && c <= 'Z') {
+			specCont = true
+		}
+	}
+	if verifKnown("C09-special-param-before-continuation", specCont) {
+		return
+	}
+	// a continuation between "$" and the name (see C25)
+	dollarCont := false
+	for i := 0; i+2 < len(src); i++ {
+		if src[i] == '$' && src[i+1] == '\\' && src[i+2] == '\n' {
+			dollarCont = true
+		}
+	}
+	if verifKnown("C25-continuation-after-dollar", dollarCont) {
 		return
 	}
 	var stack []Node
@@ -156,7 +184,15 @@ func Verif_c09_positions() {
 			if off := int(x.OpPos.Offset()) + len(op) - 1; op[len(op)-1] == '|' && off < len(src) && src[off] == '!' {
 				op = op[:len(op)-1] + "!" // zsh spells the clobber operators with ! as well
 			}
-			verifAt(src, x.OpPos, op, "Redirect.OpPos")
+			if verifParam("lang") == 4 && len(op) >= 3 {
+				// zsh accepts several spellings of the three-character
+				// operators (>>& for &>>, >&| and >&! for &>|, ...): the
+				// position must point at a redirection character
+				off := int(x.OpPos.Offset())
+				verifAssert(off < len(src) && (src[off] == '>' || src[off] == '&' || src[off] == '<'), "Redirect.OpPos: position does not point at an operator")
+			} else {
+				verifAt(src, x.OpPos, op, "Redirect.OpPos")
+			}
 		case *IfClause:
 			if x.Position.IsValid() && x.ThenPos.IsValid() {
 				verifAt(src, x.ThenPos, "then", "IfClause.ThenPos")
